@@ -102,7 +102,10 @@ def record_workspace(rng):
     ty = f"pub type Rec {{\n  Rec({f1}: Int, {f2}: Int)\n" + (f"  Other({f1}: Int)\n" if two else "") + "}\n"
     # the module ends in an identifier, with or without a final newline
     eof_nl = "\n" if rng.random() < 0.4 else ""
-    ma = ty + f"pub fn fresh() {{\n  Rec({f1}: 1, {f2}: 2)\n}}\npub const base = 1\npub const last = base" + eof_nl
+    # … and has a reference behind a string literal that contains `//` and one behind a `/` operator on the same line
+    ma = (ty + f"pub fn fresh() {{\n  Rec({f1}: 1, {f2}: 2)\n}}\npub const base = 1\n"
+          "pub fn url() {\n  #(\"https://example.org/a\", base, 4 / base)\n}\n// base is not a reference here\n"
+          "pub const last = base" + eof_nl)
     twin = (f"pub type Mine {{\n  Rec({f1}: Int)\n}}\npub fn mine() {{\n  Rec({f1}: 5)\n}}\n" if local_twin else "")
     mb = (f"import ma\n" + twin + f"pub fn make() {{\n  ma.Rec({f2}: 2, {f1}: 1)\n}}\n"
           f"pub fn get(r: ma.Rec) {{\n  r.{f1}\n}}\n"
@@ -120,7 +123,7 @@ def record_workspace(rng):
         ws.groups = [(f1, group)]
         if local_twin:
             ws.groups.append((f1, [at(1, mb, f"Rec({f1}: Int)", 4), at(1, mb, f"Rec({f1}: 5)", 4)]))
-    ws.groups = getattr(ws, "groups", []) + [("base", [at(0, ma, "const base", 6), at(0, ma, "= base", 2)])]
+    ws.groups = getattr(ws, "groups", []) + [("base", [at(0, ma, "const base", 6), at(0, ma, "\", base", 3), at(0, ma, "/ base", 2), at(0, ma, "= base", 2)])]
     # the constructor itself: declaration, unqualified use, qualified uses in an expression and in a pattern
     cgroup = [at(0, ma, f"  Rec({f1}: Int", 2), at(0, ma, f"  Rec({f1}: 1", 2), at(1, mb, f"ma.Rec({f2}: 2", 3), at(1, mb, f"ma.Rec({f1}: a", 3)]
     ws.groups = getattr(ws, "groups", []) + [("Rec", cgroup)]
